@@ -93,7 +93,7 @@ func init() {
 	})
 	register(&Prop{
 		ID: "C07",
-		Rules: []*Rule{rHide, rHideKeep, rBarrierCtor, rWrapDual, rErrRefs, rFormatArg, rSecondaryAttach, scoped(rAlwaysWraps, "the barrier and secondary-error constructors", func(_ *core.Ctx, k string) bool {
+		Rules: []*Rule{rHide, rHideKeep, rBarrierCtor, rWrapDual, rErrRefs, rFormatArg, rSecondaryAttach, scoped(rRegType, "the barrier and secondary-error types", func(_ *core.Ctx, k string) bool { return containsAny(k, "barriers.", "secondary.") }), {Name: "R-CODEC", Doc: rCodec.Doc + " (restricted to the barrier and secondary-error types)", Run: func(c *core.Ctx) { runCodec(c, func(cp *codecPair) bool { return containsAny(cp.Name, "barriers.", "secondary.") }) }}, {Name: "R-TAINT/redactable", Doc: "the hidden message of a barrier is carried as a redactable string: conversions to redact.RedactableString in package barriers (and what its decoders receive) only from strings that were built as redactable - a plain string relabelled as redactable, or a redactable one escaped again, changes the message text after a hop", Run: func(c *core.Ctx) { runTaintFiltered(c, func(s *Sink) bool { return s.Mode == "redactable" && strings.Contains(s.Name, "barriers.") }) }}, scoped(rAlwaysWraps, "the barrier and secondary-error constructors", func(_ *core.Ctx, k string) bool {
 			return containsAny(k, "Handled", "Opaque", "CombineErrors", "WithSecondaryError", "AssertionFailure", "AssertionError")
 		})},
 		Explain: "Decides, for all compositions and after decoding (decoders rebuild the same types; opaque fallbacks keep the payload inside an Any), that the error stored behind a barrier or as a secondary error cannot reach any Return, call, comparison or store other than printing, encoding and the safe-details walk (so no Unwrap/Cause/Is/As/accessor can see it); that it stays printed in %+v and folded into SafeDetails(); that every constructor which hides a parameter never also exposes it; and that Cause()/Unwrap() of every wrapper return the same, visible, field. " +
@@ -129,7 +129,7 @@ func init() {
 		ID: "C13",
 		Rules: []*Rule{rWalkMulti, rTreeRec, scoped(rOpaque, "the causes of multi-cause nodes", func(_ *core.Ctx, k string) bool {
 			return containsAny(k, "causes", "MultierrorCauses", "opaqueLeafCauses")
-		}), rOwnedBranches, rLoopAlias, {Name: "R-LOOP-EXITS", Doc: rLoopExits.Doc, Run: func(c *core.Ctx) {
+		}), rOwnedBranches, rLoopAlias, scoped(rFmtDelegate, "the multi-cause types (their own Format must hand the whole node to the dispatcher)", func(_ *core.Ctx, k string) bool { return containsAny(k, "opaqueLeafCauses", "joinError", "Causes") }), {Name: "R-LOOP-EXITS", Doc: rLoopExits.Doc, Run: func(c *core.Ctx) {
 			runLoopExits(c, map[string]bool{"markers.Is": true, "markers.IsAny": true, "report.visitAllMulti": true})
 		}}},
 		Explain: "Decides that every tree walker (Is, IsAny, As, formatter, report visitor, encoder) applies itself to each branch of every chain node's UnwrapMulti in forward order, and that multi-cause types are leaves for Unwrap/UnwrapOnce. " +
@@ -164,7 +164,7 @@ func init() {
 	})
 	register(&Prop{
 		ID:    "C10",
-		Rules: []*Rule{rNil, rShape, rWrapDual, rCtorCause, rAlwaysWraps, rFormatArg, rFmtPath, forwardScoped("New*", "Wrap*", "With*", "Errorf", "Handled*", "Opaque", "Mark", "CombineErrors", "Join*", "AssertionFailed*", "NewAssertionErrorWithWrappedErrf", "HandleAsAssertionFailure*", "UnimplementedError*")},
+		Rules: []*Rule{rNil, rShape, rWrapDual, rCtorCause, rAlwaysWraps, scoped(rWalkCurrent, "Is, IsAny, If, As and the accessors", nil), rFormatArg, rFmtPath, forwardScoped("New*", "Wrap*", "With*", "Errorf", "Handled*", "Opaque", "Mark", "CombineErrors", "Join*", "AssertionFailed*", "NewAssertionErrorWithWrappedErrf", "HandleAsAssertionFailure*", "UnimplementedError*")},
 		Explain: "Decides the nil clauses of the property for every exported constructor on every path (nilness abstract interpretation, no execution). " +
 			"NOT decided: equality of Error() strings with the compositional model, 'Join of only nils = nil' (a count over runtime arguments).",
 		Trusted: []string{"go/ssa", "nilness lattice with branch refinement; unknown callees are Top"},
